@@ -1,14 +1,12 @@
 """C16 - centered differences with a design space: bound safety of the perturbed points.
 
-NOT yet listed in PROPS["C16"]["modules"]: on the current gemseo two clauses fail (genuine defects, reported; see `finding_regions`):
+The forward point of a component is x + h unless x + h would exceed its upper bound (then it is x itself), the backward point x - h
+unless it would go below its lower bound; the comparisons use the bounds OF THE DIFFERENTIATED COMPONENTS, in the coordinates the
+approximator works in (physical, or normalised).
 
-1. ``CenteredDifferences._generate_perturbations`` compares the n selected components with the FULL bound vectors
-   (``input_perturbations[input_indices, range(n_indices)] >= upper_bounds`` instead of ``upper_bounds[input_indices]``):
-   ValueError (broadcasting) for any strict subset of components, e.g. ``CenteredDifferences(f, design_space=ds).f_gradient(x, x_indices=[1])``
-   with a 3-dimensional space; for a permutation of all the components the bound of another component is used.
-2. The forward point exceeds the upper bound when ``ub - step < x < ub`` (only ``x >= ub`` is tested, not ``x + step > ub``):
-   ub = 10, x = 10 - 5e-7, step = 1e-6 is evaluated at 10.0000005; symmetrically below the lower bound.
-   (FirstOrderFD had the same two defects, fixed in 5c282a6.)
+History: until 04a9b48 the code compared the n selected components with the FULL bound vectors (ValueError for any strict subset of
+components, another component's bound for a permutation) and only tested x >= ub / x <= lb (ub = 10, x = 10 - 5e-7, step = 1e-6 was
+evaluated at 10.0000005); found with this contract, repaired (FirstOrderFD had the same defects, fixed in 5c282a6).
 """
 from __future__ import annotations
 
@@ -64,36 +62,64 @@ class CenteredGeneratePerturbationsWithDesignSpace(Contract):
         d = N2.S(ds)
         x = c.old.input_values
         return (idx_ok(c.old.input_indices, ln(x)) + N2.wfnum(ds)
-                + [("monotone-lemma", N2.increasing_implies_distinct(d)), ("dimension", ln(x) == d.dim), ("positive-step", c.old.step > 0),
-                   ("physical-coordinates", z3.Not(c.old.self._normalize))])
+                + [("monotone-lemma", N2.increasing_implies_distinct(d)), ("dimension", ln(x) == d.dim), ("positive-step", c.old.step > 0)])
 
-    def finding_regions(self, c):
+    def axioms(self, c):
+        # instances of the real-arithmetic identity t != 0 => t / t == 1 (proved below: DivisionLemma) at the ranges of the normalised components
         d = _ds(c)
-        x, idx, h = c.old.input_values, c.old.input_indices, c.old.step
-        k = z3.Int("k!fr")
-        xk, ub, lb = el(x, idx.elems[k]), N2.el(d.ub, idx.elems[k]), N2.el(d.lb, idx.elems[k])
-        return {
-            "strict-subset-of-components": idx.n != ln(x),
-            "reordered-components-or-within-a-step-of-a-bound": z3.Exists([k], z3.And(0 <= k, k < idx.n, z3.Or(
-                idx.elems[k] != k, z3.And(ub - h < xk, xk < ub), z3.And(lb < xk, xk < lb + h)))),
-        }
+        j = z3.Int("j!dl")
+        t = N2.el(d.ub, N2.el(d.ni, j)) - N2.el(d.lb, N2.el(d.ni, j))
+        return [("t != 0 => t / t == 1 at t = ub - lb of the normalised components", z3.ForAll([j], z3.Implies(t != 0, t / t == 1), patterns=[N2.el(d.ni, j)]))]
 
     def ensures(self, c):
+        from pyvc.state import Undecided
+
+        sf = c.old.self
         d = _ds(c)
         x, idx, h = c.old.input_values, c.old.input_indices, c.old.step
         P, steps = c.result_value
         Pv, Sv = C.View(c._new_heap, P, c.st), C.View(c._new_heap, steps, c.st)
-        i, k = z3.Int("i!gp"), z3.Int("k!gp")
+        if "upper_bounds" not in c.locals or "lower_bounds" not in c.locals:
+            raise Undecided("the locals 'upper_bounds' / 'lower_bounds' (bounds the perturbed points are compared with) no longer exist")
+        UB, LB = c.locals["upper_bounds"], c.locals["lower_bounds"]
+        i, k, j = z3.Int("i!gp"), z3.Int("k!gp"), z3.Int("j!gp")
         n = idx.n
         rng = z3.And(0 <= i, i < ln(x), 0 <= k, k < n)
         ik = idx.elems[k]
-        ub, lb = N2.el(d.ub, ik), N2.el(d.lb, ik)
+        ubn = lambda t: N2.el(d.ub, t)  # noqa: E731
+        lbn = lambda t: N2.el(d.lb, t)  # noqa: E731
+        nij = N2.el(d.ni, j)
+        phys = z3.Not(sf._normalize)
+        comp = z3.And(0 <= i, i < d.dim)
         return [
             ("shape", z3.And(ln(Pv, 0) == ln(x), ln(Pv, 1) == 2 * n, ln(Sv) == 2 * n)),
             ("forward-steps-are-0-or-h", z3.ForAll([k], z3.Implies(z3.And(0 <= k, k < n), z3.Or(el(Sv, k) == 0, el(Sv, k) == h)))),
             ("backward-steps-are-0-or-minus-h", z3.ForAll([k], z3.Implies(z3.And(0 <= k, k < n), z3.Or(el(Sv, n + k) == 0, el(Sv, n + k) == -h)))),
             ("forward-columns", z3.ForAll([i, k], z3.Implies(rng, el(Pv, i, k) == el(x, i) + z3.If(i == ik, el(Sv, k), z3.RealVal(0))))),
             ("backward-columns", z3.ForAll([i, k], z3.Implies(rng, el(Pv, i, n + k) == el(x, i) + z3.If(i == ik, el(Sv, n + k), z3.RealVal(0))))),
-            ("upper-bound-safety", z3.ForAll([k], z3.Implies(z3.And(0 <= k, k < n, el(x, ik) <= ub), el(Pv, ik, k) <= ub))),
-            ("lower-bound-safety", z3.ForAll([k], z3.Implies(z3.And(0 <= k, k < n, lb <= el(x, ik)), lb <= el(Pv, ik, n + k)))),
+            # the bounds used are the design space's bounds in the coordinates the approximator works in
+            ("bounds-used:length", z3.And(ln(UB) == d.dim, ln(LB) == d.dim)),
+            ("bounds-used:physical", z3.Implies(phys, z3.ForAll([i], z3.Implies(comp, z3.And(el(UB, i) == ubn(i), el(LB, i) == lbn(i)))))),
+            ("bounds-used:normalized-upper", z3.Implies(sf._normalize, z3.ForAll([j], z3.Implies(z3.And(0 <= j, j < N2.ln(d.ni)),
+                                                                                                 el(UB, nij) == z3.If(ubn(nij) == lbn(nij), z3.RealVal(0), z3.RealVal(1)))))),
+            ("bounds-used:normalized-lower", z3.Implies(sf._normalize, z3.ForAll([j], z3.Implies(z3.And(0 <= j, j < N2.ln(d.ni)), el(LB, nij) == 0)))),
+            ("bounds-used:not-normalized-components", z3.Implies(sf._normalize, z3.ForAll([i], z3.Implies(z3.And(comp, N2.not_normalized(d, i)),
+                                                                                                         z3.And(el(UB, i) == ubn(i), el(LB, i) == lbn(i)))))),
+            # a step is only dropped when it would leave the bounds
+            ("forward-step-taken-when-it-fits", z3.ForAll([k], z3.Implies(z3.And(0 <= k, k < n, el(x, ik) + h <= el(UB, ik)), el(Sv, k) == h))),
+            ("backward-step-taken-when-it-fits", z3.ForAll([k], z3.Implies(z3.And(0 <= k, k < n, el(x, ik) - h >= el(LB, ik)), el(Sv, n + k) == -h))),
+            # no perturbed component leaves its bounds
+            ("upper-bound-safety", z3.ForAll([k], z3.Implies(z3.And(0 <= k, k < n, el(x, ik) <= el(UB, ik)), el(Pv, ik, k) <= el(UB, ik)))),
+            ("lower-bound-safety", z3.ForAll([k], z3.Implies(z3.And(0 <= k, k < n, el(LB, ik) <= el(x, ik)), el(LB, ik) <= el(Pv, ik, n + k)))),
         ]
+
+
+@register
+class DivisionLemma(Contract):
+    targets = ()
+    prop = ("C16",)
+    lemma = True
+
+    def lemmas(self):
+        t = z3.Real("t")
+        return [("t != 0 => t / t == 1", z3.Implies(t != 0, t / t == 1))]
